@@ -130,11 +130,21 @@ def shard(i, n, nrandom):
         if k % n == i:
             judge_pair(w, lang.to_mamba(prog), part, 'sweep:' + cell, execute=True)
             part.count('sweep-cells')
+    # constructs that need a support import, below each form of user import (shared with C16): what annotation adds must not disturb them
+    from . import c16
+    for ui in c16.USER_IMPORTS:
+        for sn, snippet in c16.SNIPPETS.items():
+            k += 1
+            if k % n == i and (k // n) % 3 == common.SEED % 3:
+                judge_pair(w, ui + '\n' + snippet + '\n', part, f'user-import:{ui}:{sn}', execute=False)
+                part.count('user-import-cells')
     for j in range(nrandom):
         k += 1
         if k % n == i:
             r = rng(PROP, 'random', j)
             prog, _ = gen.generate(r, {'size': 2} if j % 8 == 0 else None)
+            if j % 3 == 1:
+                prog['layout'] = j
             judge_pair(w, lang.to_mamba(prog), part, f'random:{j}', execute=True)
             part.count('random-programs')
     for rel, src in common.repo_samples('all'):
